@@ -41,6 +41,14 @@ var labCanon = map[string]string{
 	"fs":  "\u03b1\u03c2", // final sigma is PVALID in IDNA2008
 	"jc":  "\u01f0a",
 	"com": "com",
+	// sigma U+03C3 at the end of a "word": before the dot, before a hyphen, before a digit,
+	// at the end of the domain (gs). Context-sensitive lower-casing would turn the capital
+	// sigma of the upper-case variants into final sigma U+03C2 there.
+	"s0": "\u03b1\u03c3",
+	"sh": "\u03b1\u03c3-\u03b2",
+	"sd": "\u03bc\u03b1\u03c31",
+	"gs": "\u03b5\u03bb\u03bb\u03b1\u03c3",
+	"di": "k\u0131s", // dotless i: has no upper-case variant that folds back
 }
 
 var lpSpell = map[string][]string{
@@ -52,10 +60,15 @@ var lpSpell = map[string][]string{
 var labSpell = map[string][]string{
 	"ex":  {"lower", "upper", "mixed"},
 	"e1":  {"lower", "upper", "nfd", "uppernfd", "alabel", "alabelup", "alabelmix"},
-	"ss":  {"lower", "upper", "alabel", "alabelup"},
+	"ss":  {"lower", "upper", "uppercs", "alabel", "alabelup"},
 	"fs":  {"lower", "alabel", "alabelup"},
 	"jc":  {"lower", "nfd", "upperd", "alabel", "alabelup"},
 	"com": {"lower", "upper"},
+	"s0":  {"lower", "upper", "alabel", "alabelup"},
+	"sh":  {"lower", "upper", "alabel", "alabelup"},
+	"sd":  {"lower", "upper", "alabel", "alabelup"},
+	"di":  {"lower", "alabel", "alabelup"},
+	"gs":  {"lower", "upper", "alabel"},
 }
 
 func asciiUpper(s string) string {
@@ -79,6 +92,16 @@ func spell(canon, s string) (string, error) {
 		u := strings.ToUpper(canon)
 		if u == canon || lowNFC(u) != canon {
 			return "", fmt.Errorf("%+q has no upper-case variant that lower-cases back", canon)
+		}
+		return u, nil
+	case "uppercs":
+		// upper case with the capital sharp s U+1E9E
+		if !strings.Contains(canon, "\u00df") {
+			return "", fmt.Errorf("%+q has no sharp s", canon)
+		}
+		u := strings.ToUpper(strings.ReplaceAll(canon, "\u00df", "\u1e9e"))
+		if lowNFC(u) != canon {
+			return "", fmt.Errorf("%+q: capital sharp s spelling does not fold back", canon)
 		}
 		return u, nil
 	case "mixed":
@@ -227,6 +250,8 @@ var symStr = map[string]string{
 	"ace": "xn--9ca", "ACE": "XN--9CA", "pm": "postmaster", "PM": "POSTMASTER",
 	// comparison layer (Sym2 of Address.tla): lower-casing and case folding disagree on these
 	"sg": "\u03c3", "SG": "\u03a3", "li": "i", "es": "s", "ls": "\u017f", "kk": "k", "KS": "\u212a",
+	// domain layer (DSym of Address.tla): degenerate A-label shapes
+	"xe": "xn--", "XE": "XN--", "Xe": "Xn--", "xh": "xn---", "hy": "-",
 }
 
 // LowerSym of Address.tla; checked against strings.ToLower by mustLowerSym.
